@@ -875,6 +875,24 @@ def gen_scenarios(tier, rnd, lz=None):
             M6.append((f"m6:sub:drop:{nm}", [sub(d_items(l_drop(t)), "drop")]))
             M6.append((f"m6:sub:dup-adjacent:{nm}", [sub(d_items(l_dup_adj(t)), "dup")]))
             M6.append((f"m6:sub:dup-end:{nm}", [sub(d_items(l_dup_end(t)), "dup-end")]))
+        # a required field travels IN THE CLEAR next to EncryptedData instead of inside it (BLE delivers every item;
+        # the IP/CoAP expectation filter drops it)
+        def move_out(types):
+            def f(draft, ctx):
+                ctx.moved = [(t, v) for t, v in draft.sub_items if t in types]
+                draft.sub_items = [(t, v) for t, v in draft.sub_items if t not in types]
+            return f
+
+        def put_clear(pos):
+            def f(items, ctx):
+                it = list(items)
+                for m in ctx.moved:
+                    it.insert(len(it) if pos < 0 else pos, m)
+                return it
+            return f
+        for types, nm in (((T_SIG,), "sig"), ((T_ID,), "id"), ((T_PK,), "pk"), ((T_ID, T_PK, T_SIG), "all")):
+            M6.append((f"m6:sub:moved-to-cleartext:{nm}", [sub(move_out(types), "moved"), top(put_clear(-1), "clear-after")]))
+            M6.append((f"m6:sub:moved-to-cleartext:{nm}", [sub(move_out(types), "moved"), top(put_clear(1), "clear-before")]))
         M6.append(("m6:sub:reorder", [sub(d_items(l_perm((2, 0, 1))), "rot")]))
         M6.append(("m6:sub:unknown-field", [sub(d_items(l_add(-1, 0x42, b"zz")), "unk")]))
         M6.append(("m6:sub:empty", [sub(d_items(lambda it, ctx: []), "empty")]))
